@@ -6,6 +6,7 @@ import os
 def pytest_configure(config):
     from vmon import contracts
     contracts.install_purity()
+    contracts.install_datastore()
 
 
 def pytest_sessionfinish(session, exitstatus):
@@ -13,4 +14,4 @@ def pytest_sessionfinish(session, exitstatus):
     out = os.environ.get('VMON_CONTRACT_OUT')
     if out:
         with open(out, 'w') as f:
-            json.dump(contracts.purity_stats(), f)
+            json.dump(dict(contracts.purity_stats(), datastore=contracts.datastore_stats()), f)
